@@ -231,7 +231,11 @@ fn check(id: &str, tier: Tier) -> i32 {
             let st = Command::new(exe).arg("replay").arg(&path).output();
             match st {
                 Ok(o) if o.status.code() == Some(1) => {
-                    println!("  replay in a fresh process reproduced it exactly");
+                    if String::from_utf8_lossy(&o.stdout).contains("note: same violation class") {
+                        println!("  replay in a fresh process reproduced the violation (same run, same class); its event log is not identical: the tree under test reads something outside the seams (e.g. the real clock)");
+                    } else {
+                        println!("  replay in a fresh process reproduced it exactly");
+                    }
                     println!("VIOLATION property={} replay={}", scn.property(), path.display());
                     exit = 1;
                 }
